@@ -15,6 +15,9 @@ import model
 import sched
 from fnmenu import exc_class
 
+# one controlled run takes milliseconds: a run that has not come back after this many seconds never will
+CASE_S = int(os.environ.get('VERIF_CONC_CASE_S', 40))
+
 
 def excf(name):
     return exc_class(name)('boom')
@@ -72,20 +75,20 @@ def explore(run_with_chooser, budget, preemption_bound):
 # ---- one stp case -------------------------------------------------------------------------------
 
 def stp_case(cfg, chooser):
-    common.gc_point()
+    common.gc_point(what=('stp', cfg), seconds=CASE_S)
     r = sched.StpRun(cfg['b'], cfg['items'], cfg['ending'], cfg['stop'], chooser, excf, gen_source=bool(cfg.get('gensrc'))).run()
     return {'proto': 'stp', 'cfg': cfg, 'run': r}
 
 
 def lpm_case(cfg, chooser):
-    common.gc_point()
+    common.gc_point(what=('lpm', cfg), seconds=CASE_S)
     fn = make_fn(cfg['fm'], cfg['fr'], cfg['fcls'])
     r = sched.LpmRun(cfg['w'], cfg['b'], cfg['items'], cfg['ending'], fn, cfg['stop'], chooser, excf).run()
     return {'proto': 'lpm', 'cfg': cfg, 'run': r}
 
 
 def api_case(cfg, chooser):
-    common.gc_point()
+    common.gc_point(what=('api', cfg), seconds=CASE_S)
     fn = make_fn(cfg['fm'], cfg['fr'], cfg['fcls'])
     r = sched.ApiLpmRun(cfg['via'], cfg['w'], cfg['b'], cfg['items'], fn, cfg['stop'], chooser, cfg['with_items'], cfg.get('view')).run()
     return {'proto': 'api', 'cfg': cfg, 'run': r}
